@@ -347,6 +347,11 @@ def run(ctx):
         ref_ok = mf.get("REF") == "ok"
         if g["kind"] == "CONFLICT":
             stats["rejected_conflict"] += 1
+            if ref_ok and g["fields"].get("direct") == "ok":
+                # the dependency's construction, given the spec's own grammar and levels, builds the table: the rejection is emerge's
+                ctx.add_violation("a grammar whose conflicts the directives cover is rejected with a conflict report (the table construction itself, called with the same grammar and levels, succeeds)",
+                                  {"input": text, "input_hex": hx(text.encode()), "message": unhx(g["fields"].get("msg", "-")).decode("utf-8", "replace")[:600]})
+                continue
             if ref_ok:
                 # the reference resolves every cell: either a real disagreement or the dependency's order-dependent
                 # resolution of three-way conflicts (it compares against a running maximum in set-iteration order)
